@@ -1350,13 +1350,13 @@ def unit_atheris(rec: Rec, shard: int, runs: int) -> None:
 
 def units(tier: str, seed: int) -> list[Unit]:
     us = []
-    nr = 150 if tier == "quick" else 6000
+    nr = 400 if tier == "quick" else 6000
     for i in range(8):
         us.append(Unit(f"roundtrip{i}", unit_roundtrip, {"n": nr, "offset": i}))
-    nf = 150 if tier == "quick" else 5000
+    nf = 400 if tier == "quick" else 5000
     for i in range(3):
         us.append(Unit(f"form{i}", unit_form, {"n": nf, "offset": 100 + i}))
-    nm = 250 if tier == "quick" else 10000
+    nm = 600 if tier == "quick" else 10000
     for i in range(4):
         us.append(Unit(f"mutation{i}", unit_mutation, {"n": nm, "offset": 200 + i}))
     us.append(Unit("limits", unit_limits, {}))
